@@ -41,6 +41,19 @@ Theorem alloc_preserves_live : forall chunk v f a f',
   cursor_free f'.
 Proof. exact alloc_preserves_live_lemma. Qed.
 
+(* collections never touch reachable storage: a forced full collection (reset, mark, recount, then
+   grow or compact) keeps every slot the program can reach, with exactly its contents, and flagged --
+   so that, with alloc_preserves_live, a reachable slot's contents change only by a store to it *)
+Theorem Safe_collection : forall c h r h2,
+  full_mark marker_par h r = Ok h2 ->
+  forall x s, reach h (all_roots r) x -> lookup h x = Some s ->
+  exists s',
+    lookup {| boxes := if Nat.ltb (c_reset_limit c) (grow_cnt (boxes h2))
+                       then fl_compact (c_chunk c) (boxes h2) else fl_grow (c_chunk c) (boxes h2);
+              vecs := vecs h2; stale := stale h2 |} x = Some s' /\
+    sval s' = sval s /\ live s' = true.
+Proof. exact full_collection_keeps_reachable. Qed.
+
 (* the recycler as it was before the repair violates the property in the model (replayed on the engine
    by the check: box held by thread-local storage) *)
 Theorem recycle_old_refuted :
